@@ -1072,7 +1072,11 @@ impl Interp {
                         v.extend_from_slice(&x.to_le_bytes());
                     }
                     let key = format!("bf{tag}{i:04}");
-                    ks.inner().insert(key.as_bytes(), v)?;
+                    // same path as `put` (on transactional databases: the keyspace wrapper's single-operation transaction)
+                    let r = self.write_latest(&ks, &WriteOp::Put(key.into_bytes(), v), may_block)?;
+                    if r != "ok" {
+                        return Ok(r);
+                    }
                 }
                 ok()
             }
@@ -1180,6 +1184,12 @@ impl Interp {
                     wm,
                     u8::from(d.verif_is_poisoned()),
                 ))
+            }
+            "journals" => {
+                // number of journal files the journal manager tracks (sealed + the active one): compared with the model
+                exact(a, 0)?;
+                let db = self.state().db()?;
+                Ok(format!("{}", db.inner().journal_count()))
             }
             "seqnos" => {
                 exact(a, 1)?;
